@@ -2,7 +2,7 @@
    merges are monotone.  Only statements, each closed by [exact] of a lemma
    proved in Proofs/DNS*.v. *)
 From PV Require Import Base.Prelude Base.Slice Model.DNS Model.DNSMerge Model.DNSRecords Model.DNSNbns
-     Spec.RFC1035 Proofs.RFC1035 Proofs.DNS Proofs.DNSMerge Proofs.DNSRecords Proofs.DNSSpec.
+     Spec.RFC1035 Proofs.RFC1035 Proofs.DNS Proofs.DNSMerge Proofs.DNSRecords Proofs.DNSSpec Proofs.DNSNbns.
 Open Scope N_scope.
 
 (* ------------------------------------------------------------------ *)
@@ -180,6 +180,23 @@ Example C17_records_nonvacuous :
     fst (decodeAnswers p 33 (mkSlice (repeat 0 64) 0) (new_entry [])) = Ok (67%Z, true).
 Proof. exact answers_spec_nonvacuous. Qed.
 Print Assumptions C17_records_nonvacuous.
+
+(* ------------------------------------------------------------------ *)
+(* NBNS: the host name ProcessNBNS extracts from a NODE STATUS answer (RDATA = full, as
+   dnsmessage hands it over: len = cap) is the first UNIQUE name of the RFC 1002 node-name
+   array, presentation-trimmed; None (nothing extracted) when the array is cut short *)
+Theorem C17_nbns_name : forall full, bytes_ok full ->
+  nbns_answer_name (of_bytes full) = Ok (node_status_name full).
+Proof. exact nbns_name_spec. Qed.
+Print Assumptions C17_nbns_name.
+
+Example C17_nbns_name_example :
+  (* 2 names: "WORKGROUP" (group), "NAS" (unique) *)
+  let e1 := [87;79;82;75;71;82;79;85;80;32;32;32;32;32;32;0; 132;0] in
+  let e2 := [78;65;83;32;32;32;32;32;32;32;32;32;32;32;32;0; 4;0] in
+  nbns_answer_name (of_bytes ([2] ++ e1 ++ e2)) = Ok (Some [78;65;83]).
+Proof. vm_compute. reflexivity. Qed.
+Print Assumptions C17_nbns_name_example.
 
 (* ------------------------------------------------------------------ *)
 (* NameEntry.Merge: the learned attributes are Name, Model, OS, Manufacturer
